@@ -115,4 +115,11 @@ theorem overlap_border_mono {u v : Rect} {bx b ex ey : Rat} (hx : 0 ≤ ex) (hy 
   exact ⟨x, y, by linarith, by linarith, by linarith, by linarith, by linarith, by linarith,
     by linarith, by linarith⟩
 
+/-- the scan-line comparator depends on the rank only through the order it induces -/
+theorem keyLt_congr (ax : Axis) {rank rank' : Nat → Nat}
+    (h : ∀ i j, rank i < rank j ↔ rank' i < rank' j) : keyLt ax rank = keyLt ax rank' := by
+  funext u v
+  simp only [keyLt, h u v]
+
+
 end AdaptaVerif.Lemmas.Scanline
